@@ -191,7 +191,7 @@ static Scenario make_c20_shrink(std::map<std::string, long> const&)
       if (should && after != static_cast<size_t>(target)) w.fail("shrink-no-effect", "capacity " + std::to_string(after) + " after shrink(" + std::to_string(target) + ") from " + std::to_string(before));
       if (!should && after != before) w.fail("shrink-changed-capacity", "capacity " + std::to_string(after) + " after refused shrink(" + std::to_string(target) + ") from " + std::to_string(before));
       point();
-      for (int i = 0; i < 2; ++i)
+      for (long i = 0, n = s.c("after", 2); i < n; ++i)
       {
         log_id(*lg, 1, ++seq, 10);
         w.events.push_back("done 1." + std::to_string(seq));
